@@ -82,6 +82,10 @@ RD_KERNELS = {
 import translate_parser as TP
 PARSER_OPS = {
     "ParserOps": dict(imports=["DateutilVerif.Model.ParserPy"], file="parser/_parser.py", specs=TP.PARSER_SPECS),
+# "RrPy" kernels (harness/translate_rr.py): the integer helpers of rrule.py (C01)
+import translate_rr as TRR
+RR_KERNELS = {
+    "RRuleKernels": dict(imports=["DateutilVerif.Model.RrPy"], file="rrule.py", specs=TRR.RR_SPECS),
 }
 
 def write_if_changed(path, text):
@@ -161,6 +165,15 @@ def gen_parser_ops(repo, out, report):
             body = "/- GENERATED by harness/gen.py (translate_parser.py) from /repo's working tree — do not edit. -/\n"
             body += "".join("import %s\n" % i for i in cfg["imports"])
             body += "\nset_option linter.unusedVariables false\n\nnamespace Gen.P\n\n" + text + "\nend Gen.P\n"
+def gen_rr_kernels(repo, out, report):
+    src = os.path.join(repo, "src", "dateutil")
+    for mod, cfg in RR_KERNELS.items():
+        path = os.path.join(out, mod + ".lean")
+        try:
+            text, fps = TRR.translate_module(src, cfg["file"], cfg["specs"])
+            body = "/- GENERATED by harness/gen.py (translate_rr.py) from /repo's working tree — do not edit. -/\n"
+            body += "".join("import %s\n" % i for i in cfg["imports"])
+            body += "\nset_option linter.unusedVariables false\n\nnamespace Gen\n\n" + text + "\nend Gen\n"
             changed = write_if_changed(path, body)
             report["kernels"][mod] = {"ok": True, "fingerprints": fps, "changed": changed}
         except (T.Untranslatable, SyntaxError, OSError) as ex:
@@ -192,6 +205,8 @@ def gen_gettz(repo, out, report):
         report["kernels"]["GettzNocache"] = {"ok": True, "fingerprints": fps, "changed": changed}
     except (T.Untranslatable, SyntaxError, OSError) as ex:
         report["kernels"]["GettzNocache"] = {"ok": False, "error": "%s: %s" % (type(ex).__name__, ex)}
+        except Exception as ex:      # a source shape the translator does not anticipate: a broken tie for C01 only, never a crash of gen.py
+            report["kernels"][mod] = {"ok": False, "error": "Untranslatable: translator error %s: %s" % (type(ex).__name__, ex)}
 
 def gen_factory(repo, out, report):
     """zone-factory method bodies -> statement IR (harness/translate_factory.py; C18)"""
@@ -294,6 +309,7 @@ def main():
     gen_rd_kernels(a.repo, a.out, report)
     gen_wd_kernels(a.repo, a.out, report)
     gen_gettz(a.repo, a.out, report)
+    gen_rr_kernels(a.repo, a.out, report)
     gen_factory(a.repo, a.out, report)
     gen_parser_ops(a.repo, a.out, report)
     gen_replace(a.repo, a.out, report)
